@@ -13,7 +13,7 @@ MARK = "## 8. Build report"
 
 STATIC_FINDINGS = {
     "K1-transitive-network-merge": (
-        "**K1 - transitive same-colour network merge** (C01, C02, C04, C10, C12, C13, C16, C20). A circuit network is the "
+        "**K1 - transitive same-colour network merge** ({K1PROPS}). A circuit network is the "
         "transitive closure of same-colour wires over connectors; the planner's conflict graph only separates same-named "
         "signals that are direct sources of one sink, and MST fan-out chains readers of one source through each other's "
         "input connectors. A combinator can therefore read a same-named signal it was never meant to read (2.8.1). "
@@ -137,8 +137,9 @@ def main():
     for f in kf["findings"]:
         if f["id"] not in seen:
             seen.append(f["id"])
+    k1props = ", ".join(sorted({x["property"] for x in kf["findings"] if x["id"].startswith("K1")}))
     for fid in seen:
-        out.append("* " + STATIC_FINDINGS.get(fid, "**%s** - %s" % (fid, next(x["what"] for x in kf["findings"] if x["id"] == fid))))
+        out.append("* " + STATIC_FINDINGS.get(fid, "**%s** - %s" % (fid, next(x["what"] for x in kf["findings"] if x["id"] == fid))).replace("{K1PROPS}", k1props))
     out.append("")
     out.append("Each listed finding has a witness case that is re-run at the start of every run of its property; the "
                "KNOWN-FINDING line is printed only while the witness (or an attributed random case) still fails. A "
